@@ -1,16 +1,131 @@
 /-
   Property C20 — comparison and signed-window recoding helpers are exact.
-  (Property theorems only; lemmas live in SMGo/Proofs.)
+  (Property theorems only; lemmas live in SMGo/Proofs/Utils*.lean.)
+
+  "The constant-time comparison returns -1, 0 or 1 exactly as the lexicographic (equivalently
+  big-endian numeric) order of the first l bytes of its arguments dictates, for all contents.
+  The signed-window recoding writes digits that are zero or odd with absolute value below 2^w,
+  with at least w zeros after every non-zero digit, whose weighted sum equals the input integer,
+  for every 256-bit input and every window width 1..7."
 -/
 import SMGo.Spec.Utils
 import SMGo.Model.Utils
+import SMGo.Proofs.UtilsCmp
+import SMGo.Proofs.UtilsNafSpec
+import SMGo.Proofs.UtilsNaf
 namespace SMGo.Props.C20
 open SMGo
 
-/-- test (labelled as a test): one recoding of the all-ones 256-bit input -/
+/-! ## ConstantTimeCmp -/
+
+/-- within bounds, the borrow chain computes the lexicographic comparison of the first l bytes -/
+theorem cmp_spec (a b : Bytes) (l : Nat) (ha : l ≤ a.length) (hb : l ≤ b.length) :
+    Model.Utils.constantTimeCmp (some a) (some b) l
+      = .ok (Spec.Utils.lexCmp (a.take l) (b.take l)) :=
+  Proofs.UtilsCmp.cmp_ok a b l ha hb
+
+/-- for all arguments (nil slices, any `int` length, including the panics) model = specification -/
+theorem cmp_eq_spec_total (a b : Option Bytes) (l : Int) :
+    Model.Utils.constantTimeCmp a b l = Spec.Utils.cmp a b l :=
+  Proofs.UtilsCmp.cmp_total a b l
+
+/-- the result is one of -1, 0, 1 -/
+theorem lexCmp_range (x y : Bytes) :
+    Spec.Utils.lexCmp x y = -1 ∨ Spec.Utils.lexCmp x y = 0 ∨ Spec.Utils.lexCmp x y = 1 :=
+  Proofs.UtilsCmp.lexCmp_range x y
+
+/-- lexicographic order of equal-length strings is the order of their big-endian values -/
+theorem lexCmp_lt_iff_toNat (x y : Bytes) (h : x.length = y.length) :
+    Spec.Utils.lexCmp x y = -1 ↔ Bytes.toNatBE x < Bytes.toNatBE y :=
+  Proofs.UtilsCmp.lexCmp_lt_iff_toNat x y h
+
+theorem lexCmp_gt_iff_toNat (x y : Bytes) (h : x.length = y.length) :
+    Spec.Utils.lexCmp x y = 1 ↔ Bytes.toNatBE y < Bytes.toNatBE x :=
+  (Proofs.UtilsCmp.lexCmp_swap x y).trans (Proofs.UtilsCmp.lexCmp_lt_iff_toNat y x h.symm)
+
+theorem lexCmp_eq_iff (x y : Bytes) : Spec.Utils.lexCmp x y = 0 ↔ x = y :=
+  Proofs.UtilsCmp.lexCmp_eq_zero x y
+
+example : Model.Utils.constantTimeCmp (some [1, 2, 3, 9]) (some [1, 2, 4]) (3 : Nat) = .ok (-1) := by
+  rw [cmp_spec _ _ 3 (by decide) (by decide)]; decide
+
+example : Model.Utils.constantTimeCmp (some [1, 2, 3]) (some [1, 2]) 3 = .panic := by
+  rw [cmp_eq_spec_total]; decide
+
+example : Spec.Utils.lexCmp [2, 0] [1, 255] = 1 ∧ Bytes.toNatBE [1, 255] < Bytes.toNatBE [2, 0] :=
+  ⟨(lexCmp_gt_iff_toNat [2, 0] [1, 255] rfl).mpr (by decide), by decide⟩
+
+/-! ## DecomposeNAF -/
+
+/-- the textbook recoding has the three defining properties (for a value that fits) -/
+theorem naf_textbook_ok (w m k : Nat) (hw : 1 ≤ w) (hk : k ≤ 2 ^ m) :
+    (Spec.Utils.naf w (m + 1) k).length = m + 1 ∧
+    Spec.Utils.digitsOk w (Spec.Utils.naf w (m + 1) k) = true ∧
+    Spec.Utils.spaced w (Spec.Utils.naf w (m + 1) k) = true ∧
+    Spec.Utils.nafValue (Spec.Utils.naf w (m + 1) k) = (k : Int) :=
+  ⟨Proofs.UtilsNafSpec.naf_length w _ k, Proofs.UtilsNafSpec.naf_digitsOk w hw _ k,
+   Proofs.UtilsNafSpec.naf_spaced w _ k, Proofs.UtilsNafSpec.naf_value w hw m k hk⟩
+
+/-- on a 32-byte input and a zeroed 257-entry output the code writes exactly the textbook digits -/
+theorem naf_eq_textbook (s : Bytes) (hs : s.length = 32) (w : Nat) (hw : 1 ≤ w ∧ w ≤ 7) :
+    Model.Utils.decomposeNAF (some (List.replicate 257 0)) (some s) 257 w
+      = .ok (Spec.Utils.naf w 257 (Bytes.toNatBE s)) :=
+  Proofs.UtilsNaf.decomposeNAF_textbook s hs w hw.1 hw.2
+
+/-- the property as stated: digits zero or odd and below 2^w, w zeros after a non-zero digit,
+    weighted sum equal to the input -/
+theorem naf_spec (s : Bytes) (hs : s.length = 32) (w : Nat) (hw : 1 ≤ w ∧ w ≤ 7) :
+    ∃ ds, Model.Utils.decomposeNAF (some (List.replicate 257 0)) (some s) 257 w = .ok ds ∧
+      ds.length = 257 ∧ Spec.Utils.digitsOk w ds = true ∧ Spec.Utils.spaced w ds = true ∧
+      Spec.Utils.nafValue ds = (Bytes.toNatBE s : Int) := by
+  have hk : Bytes.toNatBE s ≤ 2 ^ 256 := by
+    have := Proofs.UtilsCmp.toNatBE_lt s
+    rw [hs] at this
+    exact Nat.le_of_lt this
+  exact ⟨_, naf_eq_textbook s hs w hw, naf_textbook_ok w 256 _ hw.1 hk⟩
+
+/-- what callers must avoid: a nil slice or a width outside 1..7 panics -/
+theorem naf_invalid_params_panic (out : Option (List Int)) (s : Option Bytes) (n w : Int)
+    (h : out = none ∨ s = none ∨ w ≤ 0 ∨ w > 7) :
+    Model.Utils.decomposeNAF out s n w = .panic :=
+  Proofs.UtilsNaf.decomposeNAF_invalid out s n w h
+
+/-- with n = 257 an input shorter than 32 bytes panics (index out of range) -/
+theorem naf_short_input_panics (out : List Int) (s : Bytes) (hs : s.length < 32) (w : Nat)
+    (hw : 1 ≤ w ∧ w ≤ 7) :
+    Model.Utils.decomposeNAF (some out) (some s) 257 w = .panic :=
+  Proofs.UtilsNaf.decomposeNAF_short out s hs w hw.1 hw.2
+
+example : ∃ ds, Model.Utils.decomposeNAF (some (List.replicate 257 0))
+      (some (List.replicate 31 0xa5 ++ [0x37])) 257 (5 : Nat) = .ok ds ∧
+      ds.length = 257 ∧ Spec.Utils.digitsOk 5 ds = true ∧ Spec.Utils.spaced 5 ds = true ∧
+      Spec.Utils.nafValue ds = (Bytes.toNatBE (List.replicate 31 0xa5 ++ [0x37]) : Int) :=
+  naf_spec _ (by decide) 5 (by decide)
+
+example : Model.Utils.decomposeNAF (some (List.replicate 257 0))
+      (some (List.replicate 32 0xff)) 257 (4 : Nat) = .ok (Spec.Utils.naf 4 257 (2 ^ 256 - 1)) := by
+  rw [naf_eq_textbook _ (by decide) 4 (by decide)]
+  decide +kernel
+
+example : (1 : Nat) ≤ 7 ∧ (2 ^ 256 - 1 : Nat) ≤ 2 ^ 256 := by decide
+
+/-- test (labelled as a test): one recoding of the all-ones 256-bit input, by evaluation -/
 theorem naf_all_ones_w4 :
     Model.Utils.decomposeNAF (some (List.replicate 257 0)) (some (List.replicate 32 0xff)) 257 4
       = .ok (Spec.Utils.naf 4 257 (2 ^ 256 - 1)) := by
   decide +kernel
 
 end SMGo.Props.C20
+
+#print axioms SMGo.Props.C20.cmp_spec
+#print axioms SMGo.Props.C20.cmp_eq_spec_total
+#print axioms SMGo.Props.C20.lexCmp_range
+#print axioms SMGo.Props.C20.lexCmp_lt_iff_toNat
+#print axioms SMGo.Props.C20.lexCmp_gt_iff_toNat
+#print axioms SMGo.Props.C20.lexCmp_eq_iff
+#print axioms SMGo.Props.C20.naf_textbook_ok
+#print axioms SMGo.Props.C20.naf_eq_textbook
+#print axioms SMGo.Props.C20.naf_spec
+#print axioms SMGo.Props.C20.naf_invalid_params_panic
+#print axioms SMGo.Props.C20.naf_short_input_panics
+#print axioms SMGo.Props.C20.naf_all_ones_w4
